@@ -56,6 +56,8 @@ def gen_cases(tier, seed):
     for i in range(36 if q else 500):
         yield "cli_block", {"salt": rng.getrandbits(40), "fmt": ["raw", "hex", "bin"][i % 3], "n": 1 + i % 4,
                             "vlow": [0x0A, 0x20, 0x00, 0x0D, 0x30, 0x01][i % 6], "lhigh": [0x0A, 0x0D, 0x20, 0x09, 0x00, 0x01][(i // 2) % 6]}
+    for i in range(4 if q else 40):
+        yield "arg_forms", {"salt": rng.getrandbits(40)}
     for i in range(40 if q else 600):
         yield "mine", {"salt": rng.getrandbits(40), "n_mempool": [0, 1, 2, 3, 4, 5, 6, 9][i % 8], "segwit": ["none", "some", "all"][i % 3],
                        "height": rng.choice([0, 1, 15, 16, 148, 149, 150, 299, 300, 1000, 70000]), "regtest_difficulty": i % 4 != 3}
@@ -148,6 +150,17 @@ def run_case(kind, params, ctx):
     import bits.blockchain as bc
     import bits.tx as btx
     rng = rng_for("C15", kind, params.get("salt", 0))
+    if kind == "arg_forms":
+        from .common import arg_forms
+        txs = [txref.ser_tx(txgen.gen_tx(rng, "normal", i % 2 == 0)) for i in range(3)]
+        hdr = rand_bytes(rng, 80)
+        blk = txref.ser_block(hdr, txs)
+        arg_forms(ctx, "block_deser", bc.block_deser, [blk], prop_exc=(ContractViolation,))
+        arg_forms(ctx, "block_header_deser", bc.block_header_deser, [hdr], prop_exc=(ContractViolation,))
+        leaves = [rand_bytes(rng, 32) for _ in range(5)]
+        arg_forms(ctx, "merkle_root", lambda a, b, c: bc.merkle_root([a, b, c, a, b]), leaves[:3], prop_exc=(ContractViolation,))
+        ctx.nontrivial()
+        return
     if kind == "merkle":
         for n in params["lens"]:
             leaves = _leaves(n, params["salt"])
